@@ -21,6 +21,7 @@ func init() {
 	zzsv.Register("ZZ_C14_Slash", ZZ_C14_Slash)
 	zzsv.Register("ZZ_C14_Layout", ZZ_C14_Layout)
 	zzsv.Register("ZZ_C14_Terminates", ZZ_C14_Terminates)
+	zzsv.Register("ZZ_C14_LiteralKinds", ZZ_C14_LiteralKinds)
 }
 
 // zzLitChars: n characters, each a symbolic ASCII byte (any value 1..127) or
@@ -359,4 +360,49 @@ func ZZ_C14_Terminates(sv *zzsv.T) {
 	_, ok := zzLex(src, n+2)
 	sv.Observe("terminated", ok)
 	sv.Assert("C14.terminates", ok)
+}
+
+// ZZ_C14_LiteralKinds: a literal means what it spells whatever other
+// literals the script contains: a string literal with a symbolic 3-byte body
+// next to decimal, integer and regexp literals that the solver can make it
+// coincide with in spelling.
+func ZZ_C14_LiteralKinds(sv *zzsv.T) {
+	body := sv.String("s", 3)
+	for i := 0; i < 3; i++ {
+		sv.Assume(body[i] >= 0x20)
+		sv.Assume(body[i] < 0x7f)
+		sv.Assume(body[i] != '"' && body[i] != '\\')
+	}
+	forms := []string{
+		"x = 1.5; y = /a.c/; return \"S\";",
+		"x = \"S\"; return 2.5 * 2;",
+		"x = \"S\"; return \"ab+\" ~= /ab+/;",
+		"x = [1.5, /abc/, \"S\"]; return x[2];",
+	}
+	f := sv.Choice("form", len(forms))
+	src := ""
+	for i := 0; i < len(forms[f]); i++ {
+		if forms[f][i] == 'S' {
+			src += body
+		} else {
+			src += string(forms[f][i])
+		}
+	}
+	sv.Note("script", src)
+	e := New(src)
+	err := e.Prepare()
+	sv.Assert("C14.kinds.prepares", err == nil)
+	if err != nil {
+		return
+	}
+	out, rerr := e.Execute(nil)
+	zzDescribe(sv, "result", out, rerr)
+	switch f {
+	case 0, 3:
+		sv.Assert("C14.kinds.string_stays_string", rerr == nil && zzSame(sv, out, zStr(body)))
+	case 1:
+		sv.Assert("C14.kinds.decimal_stays_decimal", rerr == nil && zzSame(sv, out, zFloat(5)))
+	default:
+		sv.Assert("C14.kinds.regexp_stays_regexp", rerr == nil && zzSame(sv, out, zBool(true)))
+	}
 }
